@@ -1226,6 +1226,204 @@ theorem C18_stop_trace (es : EarlyStopping ℝ) (p : ℕ) (hp1 : 1 ≤ p) (hp : 
     · rw [hrst] at hrst'; simp at hrst'
     · exact Or.inr ⟨hnone, hq, t1, t2⟩
 
+/-- an `on_epoch_start e'` in the trace train-start, epochs `start … b` in full, train-end has `e' ≤ b` -/
+theorem epochStart_mem_le (nb : Nat) (a b e' : Int) (hmem : Train.Event.epochStart e' ∈
+    Train.Event.trainStart :: (C12.fullEpochs nb a b ++ [Train.Event.trainEnd])) : e' ≤ b := by
+  have h2 : e' ∈ (Train.Event.trainStart :: (C12.fullEpochs nb a b ++ [Train.Event.trainEnd])).filterMap
+      C12.epochStartOf := List.mem_filterMap.mpr ⟨_, hmem, rfl⟩
+  rw [List.filterMap_cons, List.filterMap_append, ← C12.fullEpochs_start_end, fullEpochs_epochEnds] at h2
+  simp only [C12.epochStartOf, List.filterMap_cons, List.filterMap_nil, List.append_nil] at h2
+  exact ((Train.mem_epochRange _ _ _).mp h2).2
+
+/-- **C18 stop trace with several stop sources.** The hypotheses of `C18_first_stop_multi` (ℝ; callback list
+`before ++ [evaluator] ++ after`, ANY stoppers — own criterion, patience `≥ 0`, period `≥ 1`, tolerance, quantity — and requesting
+callbacks, each with any `last_epoch`; an evaluator in good order with any earlier history `prev`; any value sequence `wof`), the
+run being `fit(starting_epoch = c.start, epochs = c.epochs)` with `c.numBatches` batches per epoch, callback identities =
+positions in the list.  NO "the run returns" hypothesis.  With `R := multiReq …` the derived request oracle:
+* either SOME source's rule first holds at a candidate `x` (`AnyFires`, at no earlier candidate): then the C12 event trace of
+  `Train.fit` is train-start, the epochs before `x` in full, epoch `x` in full, train-end — it ends `…, ee x, te` —, no epoch
+  after `x` starts, the flag of `Train.fit` is set, and `R` satisfies the hypotheses of `C12_stop_at_epoch_end` at `x`;
+* or no source ever fires: the trace is the complete one, the flag clear, `R` is quiet (`C12_complete_without_stop`). -/
+theorem C18_stop_trace_multi (Mof Vof : String → W → Num ℝ) (before after : List (StopSrc ℝ × Option Int))
+    (wof : Int → W) (c : Train.Cfg) (hc : c.cbs = List.range (before.length + 1 + after.length))
+    (ev₀ : AnyEval W ℝ) (prev : List (Int × W))
+    (hev : ∃ name crit, Monitors name (Mof name) (Vof name) crit ev₀ prev)
+    (hok : ∀ p ∈ before ++ after, SrcOK Mof Vof ev₀ prev p.1) :
+    let cands := (Train.epochRange c.start c.epochs).map (fun e => (e, wof e))
+    let R := multiReq (before.map Prod.fst) (after.map Prod.fst) ev₀ wof c.start
+    (∃ pre x post, cands = pre ++ x :: post ∧ c.start ≤ x.1 ∧ x.1 ≤ c.epochs ∧
+        AnyFires Mof Vof (evalPeriod ev₀) before after prev pre x ∧
+        (∀ pre' x' post', cands = pre' ++ x' :: post' → pre'.length < pre.length →
+          ¬ AnyFires Mof Vof (evalPeriod ev₀) before after prev pre' x') ∧
+        C12.QuietBefore c R x.1 ∧ C12.QuietUpto c R x.1 c.numBatches ∧ Train.reqEv c R (.epochEnd x.1) = true ∧
+        Train.events (Train.fit c R false).1 =
+          Train.Event.trainStart :: (C12.fullEpochs c.numBatches c.start (x.1 - 1) ++ C12.epochBlock x.1 c.numBatches
+            ++ [Train.Event.trainEnd]) ∧
+        (∀ e', x.1 < e' → Train.Event.epochStart e' ∉ Train.events (Train.fit c R false).1) ∧
+        (Train.fit c R false).2.stop = true) ∨
+    ((∀ pre x post, cands = pre ++ x :: post → ¬ AnyFires Mof Vof (evalPeriod ev₀) before after prev pre x) ∧
+        C12.QuietBefore c R (c.epochs + 1) ∧
+        Train.events (Train.fit c R false).1 =
+          Train.Event.trainStart :: (C12.fullEpochs c.numBatches c.start c.epochs ++ [Train.Event.trainEnd]) ∧
+        (Train.fit c R false).2.stop = false) := by
+  intro cands R
+  obtain ⟨r, hrun, hcases⟩ := C18_first_stop_multi Mof Vof before after cands ev₀ prev [] hev hok
+  obtain ⟨hee, hother⟩ := C18_multiReq_derived (before.map Prod.fst) (after.map Prod.fst) ev₀ wof c (by simpa using hc)
+  rcases C18_fit_cases_multi before after ev₀ wof c R [] r hee hother hrun with
+    ⟨e, h1, h2, hq, hu, hr, hrs, hrf, t1, t2⟩ | ⟨hq, hrs, _, t1, t2⟩
+  · rcases hcases with ⟨pre, x, post, hsplit, hsa, hearlier, _, hrf', _, _⟩ | ⟨_, hrs', _⟩
+    · have hxe : x.1 = e := by
+        rw [hrf, Train.epochRange_snoc c.start e h1] at hrf'
+        have := congrArg List.getLast? hrf'
+        simpa using this.symm
+      subst hxe
+      refine Or.inl ⟨pre, x, post, hsplit, by omega, by omega, hsa, hearlier, hq, hu, hr, ?_, ?_, t2⟩
+      · rw [t1, C12.fullEpochs_snoc c.numBatches c.start _ h1]
+      · intro e' hlt hmem
+        rw [t1] at hmem
+        have := epochStart_mem_le _ _ _ e' hmem
+        omega
+    · rw [hrs] at hrs'; simp at hrs'
+  · rcases hcases with ⟨_, _, _, _, _, _, hrs', _⟩ | ⟨hnone, _, _⟩
+    · rw [hrs] at hrs'; simp at hrs'
+    · exact Or.inr ⟨hnone, hq, t1, t2⟩
+
+/-! ### a whole session of consecutive `fit` calls -/
+
+/-- one `fit` call of a session as the user makes it: `clear` = `evaluator.clear_history()` before it, `reset` =
+`nn_state.stop_training = False` before it, then `fit(starting_epoch = cfg.start, epochs = cfg.epochs)` with `cfg.numBatches`
+batches per epoch and the callback list `cfg.cbs`; `wof e` = the world token at the end of epoch `e` of THIS call -/
+structure Call (W : Type) where
+  clear : Bool
+  reset : Bool
+  cfg : Train.Cfg
+  wof : Int → W
+
+/-- the candidate epochs of the call with their world tokens -/
+def Call.cands (k : Call W) : List (Int × W) := (Train.epochRange k.cfg.start k.cfg.epochs).map (fun e => (e, k.wof e))
+
+/-- the call as a segment of `QV.Cb.sessionRun` -/
+def Call.seg (k : Call W) : Segment W := ⟨k.clear, k.reset, k.cands⟩
+
+/-- what ONE call `k` of a session does when entered with the flag CLEAR, the evaluator holding `ev` (evaluation points `prev`)
+and the stopper's `last_epoch = last`, in terms of its result `r`: the conclusion of `C18_first_stop` (first checked epoch at
+which the documented rule holds on `prev` plus this call's evaluations) and of `C18_fitLoop_is_C12_fit` (the C12 event trace of
+`Train.fit` with the requests derived FROM `ev` is train-start, the fired epochs in full, train-end; flags agree). -/
+def CallTrace (es : EarlyStopping ℝ) (p : ℕ) (evalFirst : Bool) (stId : Nat) (Mof Vof : W → Num ℝ) (k : Call W)
+    (ev : AnyEval W ℝ) (prev : List (Int × W)) (last : Option Int) (r : FitState W ℝ) : Prop :=
+  ((∃ pre x post, k.cands = pre ++ x :: post ∧ StopsAt es p evalFirst (evalPeriod ev) Mof Vof prev pre x ∧
+      (∀ pre' x' post', k.cands = pre' ++ x' :: post' → pre'.length < pre.length →
+        ¬ StopsAt es p evalFirst (evalPeriod ev) Mof Vof prev pre' x') ∧
+      r.st = ⟨true, some x.1⟩ ∧ r.fired = (pre ++ [x]).map Prod.fst) ∨
+   ((∀ pre x post, k.cands = pre ++ x :: post → ¬ StopsAt es p evalFirst (evalPeriod ev) Mof Vof prev pre x) ∧
+      r.st = ⟨false, last⟩ ∧ r.fired = k.cands.map Prod.fst)) ∧
+  (Train.events (Train.fit k.cfg (stopperReq stId es evalFirst ev k.wof k.cfg.start) false).1 =
+      Train.Event.trainStart :: (r.fired.flatMap (fun e => C12.epochBlock e k.cfg.numBatches) ++ [Train.Event.trainEnd]) ∧
+    (Train.events (Train.fit k.cfg (stopperReq stId es evalFirst ev k.wof k.cfg.start) false).1).filterMap C12.epochEndOf
+      = r.fired ∧
+    (Train.fit k.cfg (stopperReq stId es evalFirst ev k.wof k.cfg.start) false).2.stop = r.st.stop)
+
+/-- the specification of a whole session, call by call: the session entered with the evaluator `ev` (evaluation points `prev`)
+and the stopper state `st`; `rs` = the results of the calls.  For each call: `ev1` / `prev1` = the evaluator / its points after
+the optional `clear_history()`;
+* entered with the flag still set (no reset): the call changes nothing (`r` = the entry state, nothing fired) and `Train.fit`
+  entered with the flag set emits the EMPTY trace;
+* entered with the flag clear: `CallTrace` from the state LEFT BY THE PREVIOUS CALLS;
+* in both cases the epochs that fired are a prefix `cands.take n` of the call's epochs, the evaluator is in good order with the
+  points `prev1 ++` (the evaluation points among those epochs), and the REST of the session satisfies the specification from the
+  evaluator, stop flag / `last_epoch` and points this call leaves. -/
+def SessionTraces (es : EarlyStopping ℝ) (p : ℕ) (evalFirst : Bool) (stId : Nat) (Mof Vof : W → Num ℝ) :
+    List (Call W) → List (FitState W ℝ) → AnyEval W ℝ → StopState → List (Int × W) → Prop
+  | [], [], _, _, _ => True
+  | k :: ks, r :: rs, ev, st, prev =>
+    (((if k.reset then false else st.stop) = true →
+        r = ⟨if k.clear then ev.clearHistory else ev, ⟨true, st.lastEpoch⟩, []⟩ ∧
+        Train.events (Train.fit k.cfg (stopperReq stId es evalFirst (if k.clear then ev.clearHistory else ev) k.wof
+          k.cfg.start) true).1 = []) ∧
+      ((if k.reset then false else st.stop) = false →
+        CallTrace es p evalFirst stId Mof Vof k (if k.clear then ev.clearHistory else ev) (if k.clear then [] else prev)
+          st.lastEpoch r)) ∧
+    ∃ n, n ≤ k.cands.length ∧ r.fired = (k.cands.take n).map Prod.fst ∧ evalPeriod r.ev = evalPeriod ev ∧
+      Monitors es.quantityName Mof Vof es.criterion r.ev
+        ((if k.clear then [] else prev) ++ evalPoints (evalPeriod ev) (k.cands.take n)) ∧
+      SessionTraces es p evalFirst stId Mof Vof ks rs r.ev r.st
+        ((if k.clear then [] else prev) ++ evalPoints (evalPeriod ev) (k.cands.take n))
+  | _, _, _, _, _ => False
+
+theorem sessionRun_cons {α : Type} [Sub α] [Div α] [Zero α] [BEq α] [LT α] [DecidableLT α] [Transc α]
+    (es : EarlyStopping α) (evalFirst : Bool) (ev : AnyEval W α) (st : StopState) (seg : Segment W)
+    (rest : List (Segment W)) (r : FitState W α) (rs : List (FitState W α))
+    (h1 : fitRun es evalFirst ⟨if seg.clear then ev.clearHistory else ev,
+      ⟨if seg.reset then false else st.stop, st.lastEpoch⟩, []⟩ seg.cands = .ok r)
+    (h2 : sessionRun es evalFirst r.ev r.st rest = .ok rs) :
+    sessionRun es evalFirst ev st (seg :: rest) = .ok (r :: rs) := by
+  simp only [sessionRun, h1, h2]
+
+/-- **C18 session traces.** A WHOLE SESSION of consecutive `fit` calls on the SAME evaluator and stopper objects
+(`QV.Cb.sessionRun`): ANY list of calls — each with its own starting epoch, last epoch (empty ranges included), number of
+batches, world tokens, further non-asking callbacks; each preceded or not by `evaluator.clear_history()` and / or by
+`stop_training = False` —, any entry state of the session (flag set or clear, any `last_epoch`, an evaluator in good order with
+any earlier evaluation points `prev`), patience `p ≥ 1`, periods `≥ 1`, any tolerance / criterion / values, either list order.
+NO "the session returns" hypothesis: the session does not raise, and its results satisfy `SessionTraces`: by induction over the
+calls, each call's C12 event trace is the one `C18_fit_cases` / `C18_fitLoop_is_C12_fit` give for the requests derived from
+the evaluator state and `last_epoch` LEFT BY THE PREVIOUS CALLS, it stops at the first checked epoch at which the documented
+rule holds on ALL evaluation points accumulated so far in the session (since the last `clear_history()`), and a call entered
+with the flag still set emits the empty trace and changes nothing (so every later call without a reset does nothing either). -/
+theorem C18_session_traces (es : EarlyStopping ℝ) (p : ℕ) (hp1 : 1 ≤ p) (hp : es.patience = (p : Int))
+    (hps : 1 ≤ es.period) (evalFirst : Bool) (stId : Nat) {Mof Vof : W → Num ℝ} (calls : List (Call W)) :
+    (∀ k ∈ calls, stId ∈ k.cfg.cbs) →
+    ∀ (ev : AnyEval W ℝ) (st : StopState) (prev : List (Int × W)),
+    Monitors es.quantityName Mof Vof es.criterion ev prev →
+    ∃ rs, sessionRun es evalFirst ev st (calls.map Call.seg) = .ok rs ∧
+      SessionTraces es p evalFirst stId Mof Vof calls rs ev st prev := by
+  induction calls with
+  | nil => intro _ ev st prev _; exact ⟨[], rfl, trivial⟩
+  | cons k ks ih =>
+    intro hst ev st prev hmon
+    have hmon1 : Monitors es.quantityName Mof Vof es.criterion (if k.clear then ev.clearHistory else ev)
+        (if k.clear then [] else prev) ∧ evalPeriod (if k.clear then ev.clearHistory else ev) = evalPeriod ev := by
+      cases k.clear with
+      | true => exact C18_clear_history_monitors hmon
+      | false => exact ⟨hmon, rfl⟩
+    obtain ⟨hm1, hper1⟩ := hmon1
+    have hstk : stId ∈ k.cfg.cbs := hst k (by simp)
+    have hstks : ∀ k' ∈ ks, stId ∈ k'.cfg.cbs := fun k' hk' => hst k' (by simp [hk'])
+    cases hent : (if k.reset then false else st.stop) with
+    | true =>
+      have hrun : fitRun es evalFirst ⟨if k.seg.clear then ev.clearHistory else ev,
+          ⟨if k.seg.reset then false else st.stop, st.lastEpoch⟩, []⟩ k.seg.cands
+          = .ok ⟨if k.clear then ev.clearHistory else ev, ⟨true, st.lastEpoch⟩, []⟩ := by
+        show fitRun es evalFirst ⟨if k.clear then ev.clearHistory else ev,
+          ⟨if k.reset then false else st.stop, st.lastEpoch⟩, []⟩ k.cands = _
+        rw [hent]
+        exact C18_fit_entered_stopped es evalFirst _ _ _ _
+      obtain ⟨rs, hrs, hspec⟩ := ih hstks (if k.clear then ev.clearHistory else ev) ⟨true, st.lastEpoch⟩
+        (if k.clear then [] else prev) hm1
+      refine ⟨_ :: rs, by rw [List.map_cons]; exact sessionRun_cons es evalFirst ev st k.seg _ _ rs hrun hrs, ?_⟩
+      refine ⟨⟨fun _ => ⟨rfl, rfl⟩, fun h => by simp [hent] at h⟩, 0, Nat.zero_le _, by simp, hper1, ?_, ?_⟩
+      · simpa [evalPoints] using hm1
+      · simpa [evalPoints] using hspec
+    | false =>
+      obtain ⟨r, hr, hcases⟩ := C18_first_stop es p hp1 hp hps evalFirst k.cands (if k.clear then ev.clearHistory else ev)
+        (if k.clear then [] else prev) st.lastEpoch [] hm1
+      have hrun : fitRun es evalFirst ⟨if k.seg.clear then ev.clearHistory else ev,
+          ⟨if k.seg.reset then false else st.stop, st.lastEpoch⟩, []⟩ k.seg.cands = .ok r := by
+        show fitRun es evalFirst ⟨if k.clear then ev.clearHistory else ev,
+          ⟨if k.reset then false else st.stop, st.lastEpoch⟩, []⟩ k.cands = _
+        rw [hent]
+        exact hr
+      obtain ⟨n, hn, hfn, hpn, hmn⟩ := C18_fit_keeps_monitoring es evalFirst k.cands _ _ _ _ r hm1 hr
+      obtain ⟨run, hrun1, t1, t2, t3, _, _⟩ := C18_fitLoop_is_C12_fit stId es evalFirst
+        (if k.clear then ev.clearHistory else ev) k.wof k.cfg hstk st.lastEpoch [] r hr
+      rw [hper1] at hmn
+      obtain ⟨rs, hrs, hspec⟩ := ih hstks r.ev r.st _ hmn
+      refine ⟨r :: rs, by rw [List.map_cons]; exact sessionRun_cons es evalFirst ev st k.seg _ r rs hrun hrs, ?_⟩
+      refine ⟨⟨fun h => by simp [hent] at h, fun _ => ⟨?_, ?_⟩⟩, n, hn, by simpa using hfn, by rw [hpn, hper1], hmn, hspec⟩
+      · simpa using hcases
+      · simp only [List.nil_append] at hrun1
+        subst hrun1
+        exact ⟨t1, t2, t3⟩
+
 /-! ### non-vacuity, the F7 regression witness and the (repaired) F8 witness -/
 
 /-- a metric evaluator of period 1 tracking one scripted quantity "m" (value = function of the epoch) -/
@@ -1496,6 +1694,42 @@ example := C18_stop_trace (exStopper .absolute 0.01) 1 (Nat.le_refl 1) rfl (by s
 `[evaluator, stopper (patience 1), stopper (patience 2), requester at epoch 2]` (identities = positions 0..3) -/
 example := C18_multiReq_derived (α := ℝ) [] [.stopper (exStopper .absolute 0.01), .stopper (exStopper2 .absolute 0.01), .request [2]]
   (exEval f15) (fun e => e) ⟨1, 4, 2, [0, 1, 2, 3], false, false⟩ (by decide)
+
+/-- the hypotheses of `C18_stop_trace_multi` are met by the callback list `[evaluator, stopper (patience 1), stopper (patience 2),
+requester at epoch 7]` (identities = positions 0..3) on the F7 witness values, 2 batches per epoch, epochs 1..4 -/
+example := C18_stop_trace_multi (fun _ => f15) (fun _ => f15) []
+  [(.stopper (exStopper .absolute 0.01), none), (.stopper (exStopper2 .absolute 0.01), none), (.request [7], none)]
+  (fun e => e) ⟨1, 4, 2, [0, 1, 2, 3], false, false⟩ (by decide) (exEval f15) []
+  ⟨"m", .absolute, by simp, by simp [MetricEvaluator.names, Dict.keys], by simp, by simp, by simp, rfl⟩
+  (by
+    have hm : Monitors "m" f15 f15 .absolute (exEval f15) [] :=
+      ⟨by simp, by simp [MetricEvaluator.names, Dict.keys], by simp, by simp, by simp, rfl⟩
+    intro p hp
+    simp only [List.nil_append, List.mem_cons, List.not_mem_nil, or_false] at hp
+    rcases hp with rfl | rfl | rfl
+    · exact ⟨by simp [exStopper], by simp [exStopper], hm⟩
+    · exact ⟨by simp [exStopper2], by simp [exStopper2], hm⟩
+    · trivial)
+
+/-- the hypotheses of `C18_session_traces` are met by a session of four calls on the F7 witness objects: epochs 1..4 (stops at
+3), a call WITHOUT reset (entered stopped: empty trace), a resumed call over epochs 5..6 with 3 batches, and a call over an
+empty range after `clear_history()` — from a clear flag; and the same session entered with the flag already SET -/
+example (st : StopState) := C18_session_traces (exStopper .absolute 0.01) 1 (Nat.le_refl 1) rfl (by simp [exStopper]) true 1
+  (Mof := f15) (Vof := f15)
+  [⟨false, false, exCfg18, fun e => e⟩, ⟨false, false, exCfg18, fun e => e⟩, ⟨false, true, ⟨5, 6, 3, [0, 1], false, false⟩, fun e => e⟩,
+    ⟨true, true, ⟨3, 2, 2, [0, 1], false, false⟩, fun e => e⟩]
+  (by simp [exCfg18]) (exEval f15) st []
+  ⟨by simp, by simp [MetricEvaluator.names, Dict.keys], by simp, by simp [exStopper], by simp [exStopper], rfl⟩
+
+/-- `SessionTraces` is not vacuous: for a one-call session entered with the flag set it pins the result (nothing fired, the
+entry state) — and it is FALSE for a result list of the wrong length -/
+example (r : FitState Int ℝ) (h : SessionTraces (exStopper .absolute 0.01) 1 true 1 f15 f15
+    [⟨false, false, exCfg18, fun e => e⟩] [r] (exEval f15) ⟨true, some 9⟩ []) :
+    r = ⟨exEval f15, ⟨true, some 9⟩, []⟩ ∧
+    ¬ SessionTraces (exStopper .absolute 0.01) 1 true 1 f15 f15 [⟨false, false, exCfg18, fun e => e⟩] [] (exEval f15) ⟨true, some 9⟩ [] := by
+  refine ⟨?_, fun h' => h'⟩
+  have := (h.1.1 (by simp)).1
+  simpa using this
 
 end C18
 end QV.Props
